@@ -216,6 +216,8 @@ func parseFields(obj any) ([]fieldInfo, error) {
 		parts := strings.Split(tag, ",")
 		if parts[0] == "" {
 			return nil, fmt.Errorf("empty secret name for tagged field %q", ft.Name)
+		} else if !ft.IsExported() {
+			return nil, fmt.Errorf("tagged field %q is not exported", ft.Name)
 		}
 		fi := fieldInfo{
 			fieldName:  ft.Name,
